@@ -5,6 +5,7 @@ NAME = "compass"
 MODULE = "cspuz.puzzle.compass"
 FUNC = "solve_compass"
 TIER1 = ("Compass", "solve_compass_model")
+TIER1_PRIM = ("CompassPrim", "solve_compass_model_prim")
 
 
 def call(mod, pb):
